@@ -175,6 +175,11 @@ def generate_composite_keys(
                         created_composite_key += key + "=" + tranformed
         else:
             ## raise TypeError(f"generate_composite_keys(..): expected element dict inside list, but got ({type(line)}){line}")
+            # n0list.compare(..) compares the items of this list transformed (the transform is looked up
+            # with the xpath of the list): pair them by the key of the transformed item as well
+            transform_i = xpath_match(prefix, attributes_to_transform)
+            if transform_i:
+                line = transform[transform_i - 1][1](line)
             # Not a record: the key is the JSON text of the item, which keeps its type apart
             # (1 <> '1', None <> 'None', '' <> the empty key of a record)
             # and, with sorted keys, is the same for equal dictionaries inside a nested list
